@@ -45,6 +45,8 @@ type Runner struct {
 	// engine cannot continue from there (Tendermint rejects an empty validator set),
 	// so histories end at that point.
 	Halted bool
+	// Rec, when set, records every executed request as replayable data.
+	Rec *Scenario
 
 	// per-history facts usable as non-triviality signals
 	AcceptedTx   int
@@ -191,6 +193,15 @@ func (r *Runner) Block(t *rapid.T) bool {
 	h := n.LastHeight + 1
 	req := BlockReq{Height: h, Time: r.NextTime(t), Votes: r.NextVotes(t), Evidence: r.NextEvidence(t)}
 	r.logf("BeginBlock h=%d t=%s votes=%s ev=%d", h, req.Time.Format("15:04:05"), voteString(req.Votes), len(req.Evidence))
+	if n.WouldHalt(req) {
+		// a passing halt vote makes the node exit the process: the history ends here
+		r.Halted = true
+		r.logf("halt vote would pass at %d: history ends", h)
+		return true
+	}
+	if r.Rec != nil {
+		r.Rec.RecBegin(req)
+	}
 	if n.BeginBlock(req) {
 		return false
 	}
@@ -220,6 +231,9 @@ func (r *Runner) Block(t *rapid.T) bool {
 func (r *Runner) Deliver(m *TxMeta) bool {
 	if r.H.BeforeTx != nil {
 		r.H.BeforeTx(m)
+	}
+	if r.Rec != nil {
+		r.Rec.RecTx(m.Raw)
 	}
 	resp, ok := r.N.DeliverTx(m.Raw)
 	for _, mn := range r.Mirrors {
@@ -259,6 +273,10 @@ func (r *Runner) Finish() bool {
 	h := n.CurHeight
 	if r.H.BeforeEnd != nil {
 		r.H.BeforeEnd(h)
+	}
+	if r.Rec != nil {
+		r.Rec.Rec("end")
+		r.Rec.Rec("commit")
 	}
 	resp, ok := n.EndBlock()
 	for _, m := range r.Mirrors {
